@@ -40,7 +40,11 @@ SpaceCode == [SystemMemory |-> 0, SystemIo |-> 1, PciConfigSpace |-> 2, Embedded
               SystemCmos |-> 5, PciBarTarget |-> 6, Ipmi |-> 7, GeneralPursposeIo |-> 8, GenericSerialBus |-> 9,
               PlatformCommunicationsChannel |-> 10, PlatformRuntimeMechanism |-> 11, FunctionalFixedHardware |-> 127]
 AccessCode == [Undefined |-> 0, ByteAccess |-> 1, WordAccess |-> 2, DwordAccess |-> 3, QwordAccess |-> 4]
-GasBytes(g) == <<SpaceCode[g.space]>> \o g.width \o g.offset \o <<AccessCode[g.access]>> \o g.addr
+\* a GAS value comes from one of two public constructors: the general one, or the PCI-configuration-space one (device /
+\* function / register; ACPI Table 5.1: address = register(2) function(2) device(2) 0(2), little-endian; offset 0)
+GasBytes(g) == IF "device" \in DOMAIN g
+               THEN <<2>> \o g.width \o <<0>> \o <<AccessCode[g.access]>> \o g.register \o W(g.function, 2) \o W(g.device, 2) \o <<0, 0>>
+               ELSE <<SpaceCode[g.space]>> \o g.width \o g.offset \o <<AccessCode[g.access]>> \o g.addr
 GasZero == Z(12)
 
 \* PCI bus/device/function packing: bus[15:8] device[7:3] function[2:0]
@@ -468,8 +472,9 @@ SLay(st, s) ==
     [] st = "gaddr" -> <<N("space", <<IF s.kind = "io" THEN 1 ELSE 0>>), N("width", <<8 * s.size>>), N("offset", <<0>>),
                          N("access", <<CASE s.size = 1 -> 1 [] s.size = 2 -> 2 [] s.size = 4 -> 3 [] s.size = 8 -> 4>>),
                          N("addr", W(s.addr, 8))>>
-    [] st = "gas" -> <<N("space", <<SpaceCode[s.g.space]>>), N("width", s.g.width), N("offset", s.g.offset),
-                       N("access", <<AccessCode[s.g.access]>>), N("addr", s.g.addr)>>
+    [] st = "gas" -> IF "device" \in DOMAIN s.g THEN <<N("gas_pci", GasBytes(s.g))>>
+                     ELSE <<N("space", <<SpaceCode[s.g.space]>>), N("width", s.g.width), N("offset", s.g.offset),
+                            N("access", <<AccessCode[s.g.access]>>), N("addr", s.g.addr)>>
 
 \* state of structure st after its constructor and the first k builder calls
 SStateK(st, e, R, k) == FoldLeft(LAMBDA s, c : SCall(st, s, c, R), SInit(st, e.a, R), SubSeq(CallsOf(e), 1, k))
